@@ -328,6 +328,42 @@ func genC11(o *out, r *rng, thorough bool) {
 	if thorough {
 		n = 60000
 	}
+	for i := 0; i < n/6; i++ {
+		// exactly one out-of-range position, at the first / last / a middle place; rings closed or not
+		k := r.rangeI(3, 7)
+		var pts []ipt
+		for j := 0; j < k; j++ {
+			pts = append(pts, ipt{r.rangeI(-170, 170) * 16, r.rangeI(-80, 80) * 16})
+		}
+		bad := ipt{r.pick([]int{-181, 181, 0, 200}) * 16, r.pick([]int{91, -91, 95, 0}) * 16}
+		if bad.x == 0 && bad.y == 0 {
+			bad.y = 91 * 16
+		}
+		pos := r.pick([]int{0, k - 1, r.intn(k)})
+		if r.coin(0.8) {
+			pts[pos] = bad
+		}
+		closed := r.coin(0.5)
+		if closed {
+			pts = append(pts, pts[0])
+		}
+		id := o.newID("O")
+		if r.coin(0.6) {
+			o.op("onew %s polygon 0 0 1 %s", id, ptsStr(pts))
+		} else {
+			o.op("onew %s line 0 0 %s", id, ptsStr(pts))
+		}
+		o.op("oattrs %s", id)
+		if r.coin(0.3) {
+			gid := o.newID("O")
+			o.op("onew %s gc 1 %s", gid, id)
+			o.op("oattrs %s", gid)
+		}
+		if i%100 == 99 {
+			o.op("oreset")
+		}
+	}
+	o.op("oreset")
 	for i := 0; i < n; i++ {
 		u := r.pick([]int{1, 16, 16, 256})
 		x := newAny(o, r, u)
@@ -365,6 +401,18 @@ func genC08(o *out, r *rng, thorough bool) {
 		text, fl := genWF(r, true)
 		if fl.mixDims || fl.badUnits {
 			continue
+		}
+		if i%5 == 2 {
+			// rectangles and almost-rectangles: only exact ones may be replaced under AllowRects
+			g := newDocGen(r, true)
+			text = `{"type":"Polygon","coordinates":` + g.rectPolyCoords() + `}`
+			fl = docFlags{planar: true}
+		}
+		if i%97 == 13 {
+			// a perfect rectangle with a negative-zero ordinate (known finding D18 under AllowRects)
+			w, h := r.rangeI(1, 40), r.rangeI(1, 40)
+			text = fmt.Sprintf(`{"type":"Polygon","coordinates":[[[0,%d],[%d,%d],[%d,%d],[-0,%d],[0,%d]]]}`, -h, w, -h, w, h, h, -h)
+			fl = docFlags{planar: true}
 		}
 		np := strings.Count(text, "[")
 		type variant struct{ opts string }
@@ -528,6 +576,7 @@ func genC05obj(o *out, r *rng, thorough bool) {
 	if thorough {
 		n = 40000
 	}
+	genLineWalks(o, r, n/3)
 	for i := 0; i < n; i++ {
 		a, b := newAny(o, r, 16), newAny(o, r, 16)
 		o.op("opred %s %s", a.id, b.id)
